@@ -125,6 +125,10 @@ def conc(e):
 
 
 def sort_of(dtype):
+    if dtype == "key":
+        from .stubs.prng import Key
+
+        return Key
     return {"float": z3.RealSort(), "int": z3.IntSort(), "bool": z3.BoolSort()}[dtype]
 
 
@@ -133,7 +137,9 @@ def dtype_of(e):
         return "bool"
     if z3.is_int(e):
         return "int"
-    return "float"
+    if z3.is_real(e):
+        return "float"
+    return "key"
 
 
 def join_dtype(*ds):
@@ -172,6 +178,13 @@ class T:
 
     def reshape(self, *shape):
         return SymArray((), lambda idx: self.e, dtype_of(self.e)).reshape(*shape)
+
+    def transpose(self, *axes):
+        return self
+
+    @property
+    def T(self):
+        return self
 
     def is_bool(self):
         return z3.is_bool(self.e)
@@ -507,6 +520,33 @@ class RowMajor:
         if k == 1:
             self.N = self.dims[0]
             return
+        if k == 2 and concrete[0] is not None and concrete[0] <= 8 and concrete[1] is None:
+            # (T, n) with a small concrete T: the bijection is linear arithmetic, p = t * n + i
+            Tn, n = concrete[0], self.dims[1]
+            self.k = -2
+            self.N = z3.simplify(z3.IntVal(Tn) * n)
+
+            def ravel2(idx):
+                t, i = idx
+                ct = conc(t)
+                if ct is not None:
+                    return z3.IntVal(ct) * n + i
+                out = z3.IntVal(Tn - 1) * n + i
+                for c in range(Tn - 2, -1, -1):
+                    out = z3.If(t == c, z3.IntVal(c) * n + i, out)
+                return out
+
+            def unravel2(p):
+                t = z3.IntVal(Tn - 1)
+                for c in range(Tn - 2, -1, -1):
+                    t = z3.If(p < z3.IntVal(c + 1) * n, z3.IntVal(c), t)
+                i = p - z3.IntVal(Tn - 1) * n
+                for c in range(Tn - 2, -1, -1):
+                    i = z3.If(p < z3.IntVal(c + 1) * n, p - z3.IntVal(c) * n, i)
+                return [t, i]
+
+            self._ravel2, self._unravel2 = ravel2, unravel2
+            return
         name = ctx.fresh("rm")
         # if all but one dims are concrete 1, identity as well -- keep generic otherwise
         if all(c is not None for c in concrete):
@@ -579,6 +619,8 @@ class RowMajor:
 
     def ravel(self, idx):
         idx = [lift(i) for i in idx]
+        if self.k == -2:
+            return self._ravel2(idx)
         if self.k == 0:
             return z3.IntVal(0)
         if self.k == 1:
@@ -587,6 +629,8 @@ class RowMajor:
 
     def unravel(self, p):
         p = lift(p)
+        if self.k == -2:
+            return self._unravel2(p)
         if self.k == 0:
             return []
         if self.k == 1:
